@@ -1354,14 +1354,15 @@ class ThirdCoreHexToFullCoreChanger(GeometryChanger):
                     f"Modifying parameters in central assembly {a} to convert from 1/3 to full core"
                 )
 
-                if not self.listOfVolIntegratedParamsToScale:
-                    # populate the list with all parameters that are VOLUME_INTEGRATED
-                    (
-                        self.listOfVolIntegratedParamsToScale,
-                        _,
-                    ) = _generateListOfParamsToScale(
-                        self._sourceReactor.core, paramsToScaleSubset=[]
-                    )
+                # populate the list with all parameters that are VOLUME_INTEGRATED. Do this on
+                # every conversion: a re-used changer must also scale the parameters that were
+                # first assigned after its previous conversion.
+                (
+                    self.listOfVolIntegratedParamsToScale,
+                    _,
+                ) = _generateListOfParamsToScale(
+                    self._sourceReactor.core, paramsToScaleSubset=[]
+                )
 
                 for b in a:
                     self._scaleBlockVolIntegratedParams(b, "up")
